@@ -1,10 +1,464 @@
 /-
-  Model module `Codec` (driver op `codec`). Import-free apart from RsjModel.* modules.
+  Model module `Codec` (driver op `codec`): the parsing / encoding builtins of
+  `rsjsonnet-lang/src/program/eval/{mod.rs,stdlib.rs,manifest.rs}` (property C20).
+
+  * `parse_num_radix` (std.parseOctal / std.parseHex, YAML 0o / 0x scalars) and
+    the decimal path of `std.parseInt`;
+  * `encode_base64` / `decode_base64`;
+  * `std.encodeUTF8` (string -> bytes) and `String::from_utf8_lossy`
+    (`std.decodeUTF8`);
+  * `std.escapeStringBash/Dollars/XML/Json/Python`;
+  * `hash_to_hex_string`.
+
+  Strings are lists of Unicode scalar values (`Nat`), byte arrays are lists of
+  `Nat` below 256.  Import-free apart from RsjModel.Util.
 -/
 import RsjModel.Util
 namespace Rsj.Codec
 
+/-- Unicode scalar value (what a Rust `char` can hold). -/
+def Scalar (c : Nat) : Prop := c < 0xD800 ∨ (0xE000 ≤ c ∧ c < 0x110000)
+
+instance (c : Nat) : Decidable (Scalar c) := by unfold Scalar; exact inferInstance
+
+/-! ## Base64 (`encode_base64`, `decode_base64`) -/
+
+/-- `encmap`: `b"ABCDEFGHIJKLMNOPQRSTUVWXYZabcdefghijklmnopqrstuvwxyz0123456789+/"`. -/
+def encMap : List Nat :=
+  [65, 66, 67, 68, 69, 70, 71, 72, 73, 74, 75, 76, 77, 78, 79, 80, 81, 82, 83, 84, 85, 86, 87, 88, 89, 90,
+   97, 98, 99, 100, 101, 102, 103, 104, 105, 106, 107, 108, 109, 110, 111, 112, 113, 114, 115, 116, 117,
+   118, 119, 120, 121, 122,
+   48, 49, 50, 51, 52, 53, 54, 55, 56, 57, 43, 47]
+
+/-- `encmap[i]`; `none` is the slice-index panic. -/
+def encIdx (i : Nat) : Option Nat := encMap[i]?
+
+/-- `'='` -/
+def PAD : Nat := 61
+
+/-- `encode_base64` over an iterator of bytes; `none` = index panic (never
+    reached for bytes, see `C20_base64_encode_total`). -/
+def encode : List Nat → Option (List Nat)
+  | [] => some []
+  | [b0] => do
+    let c0 ← encIdx (b0 >>> 2)
+    let c1 ← encIdx ((b0 &&& 3) <<< 4)
+    pure [c0, c1, PAD, PAD]
+  | [b0, b1] => do
+    let c0 ← encIdx (b0 >>> 2)
+    let c1 ← encIdx (((b0 &&& 3) <<< 4) ||| (b1 >>> 4))
+    let c2 ← encIdx ((b1 &&& 15) <<< 2)
+    pure [c0, c1, c2, PAD]
+  | b0 :: b1 :: b2 :: rest => do
+    let c0 ← encIdx (b0 >>> 2)
+    let c1 ← encIdx (((b0 &&& 3) <<< 4) ||| (b1 >>> 4))
+    let c2 ← encIdx (((b1 &&& 15) <<< 2) ||| (b2 >>> 6))
+    let c3 ← encIdx (b2 &&& 63)
+    let r ← encode rest
+    pure (c0 :: c1 :: c2 :: c3 :: r)
+
+inductive B64Err where
+  | length
+  | badChar (c : Nat)
+  | codepoint
+  | panic
+deriving Repr, DecidableEq
+
+/-- `std.base64(str)`: every code point must fit a byte. -/
+def encodeStr (s : List Nat) : Except B64Err (List Nat) :=
+  if s.all (· < 256) then
+    match encode s with
+    | some r => .ok r
+    | none => .error .panic
+  else .error .codepoint
+
+/-- `chr_to_index` -/
+def chrToIndex (c : Nat) : Except B64Err Nat :=
+  if 65 ≤ c ∧ c ≤ 90 then .ok (c - 65)
+  else if 97 ≤ c ∧ c ≤ 122 then .ok (c - 97 + 26)
+  else if 48 ≤ c ∧ c ≤ 57 then .ok (c - 48 + 52)
+  else if c = 43 then .ok 62
+  else if c = 47 then .ok 63
+  else .error (.badChar c)
+
+/-- u8 arithmetic of the decoder: `<<` drops the bits shifted out of the byte. -/
+def out0 (i0 i1 : Nat) : Nat := ((i0 <<< 2) % 256) ||| (i1 >>> 4)
+def out1 (i1 i2 : Nat) : Nat := ((i1 <<< 4) % 256) ||| (i2 >>> 2)
+def out2 (i2 i3 : Nat) : Nat := ((i2 <<< 6) % 256) ||| i3
+
+/-- The last chunk (`chunks.next_back()`), with the three padding cases. -/
+def decodeLast (c0 c1 c2 c3 : Nat) : Except B64Err (List Nat) := do
+  let i0 ← chrToIndex c0
+  let i1 ← chrToIndex c1
+  if c2 = PAD ∧ c3 = PAD then
+    pure [out0 i0 i1]
+  else if c3 = PAD then do
+    let i2 ← chrToIndex c2
+    pure [out0 i0 i1, out1 i1 i2]
+  else do
+    let i2 ← chrToIndex c2
+    let i3 ← chrToIndex c3
+    pure [out0 i0 i1, out1 i1 i2, out2 i2 i3]
+
+/-- A chunk that is not the last one. -/
+def decodeFull (c0 c1 c2 c3 : Nat) : Except B64Err (List Nat) := do
+  let i0 ← chrToIndex c0
+  let i1 ← chrToIndex c1
+  let i2 ← chrToIndex c2
+  let i3 ← chrToIndex c3
+  pure [out0 i0 i1, out1 i1 i2, out2 i2 i3]
+
+/-- The chunk loop (non-last chunks in order, then the last chunk). -/
+def decodeChunks : List Nat → Except B64Err (List Nat)
+  | [] => .ok []
+  | [c0, c1, c2, c3] => decodeLast c0 c1 c2 c3
+  | c0 :: c1 :: c2 :: c3 :: rest => do
+    let a ← decodeFull c0 c1 c2 c3
+    let b ← decodeChunks rest
+    pure (a ++ b)
+  | _ => .error .length
+
+/-- `decode_base64` -/
+def decode (cs : List Nat) : Except B64Err (List Nat) :=
+  if cs.length % 4 ≠ 0 then .error .length else decodeChunks cs
+
+/-! ## `parse_num_radix`, `std.parseInt` -/
+
+inductive Radix where
+  | oct | hex
+deriving Repr, DecidableEq
+
+def Radix.base : Radix → Nat
+  | .oct => 8
+  | .hex => 16
+
+/-- `max_digits_128` -/
+def Radix.maxDigits : Radix → Nat
+  | .oct => 128 / 3
+  | .hex => 128 / 4
+
+/-- bits per digit -/
+def Radix.bits : Radix → Nat
+  | .oct => 3
+  | .hex => 4
+
+/-- `char::to_digit(RADIX)` (contract: `0-9`, and `a-f` / `A-F` for radix 16). -/
+def toDigit (r : Radix) (c : Nat) : Option Nat :=
+  if 48 ≤ c ∧ c ≤ 57 then (if c - 48 < r.base then some (c - 48) else none)
+  else match r with
+    | .oct => none
+    | .hex =>
+      if 97 ≤ c ∧ c ≤ 102 then some (c - 87)
+      else if 65 ≤ c ∧ c ≤ 70 then some (c - 55)
+      else none
+
+inductive RErr where
+  | empty
+  | invalidDigit (c : Nat)
+  | overflow
+  /-- arithmetic overflow of the `u128` accumulator / slice panic -/
+  | panic
+deriving Repr, DecidableEq
+
+def U128 : Nat := 2 ^ 128
+
+/-- `s.trim_start_matches('0')` -/
+def trimZeros (s : List Nat) : List Nat := s.dropWhile (· == 48)
+
+/-- First loop: `for chr in chars.by_ref().take(max_digits_128)`.
+    Returns the accumulator and the characters not consumed. -/
+def windowLoop (r : Radix) : Nat → List Nat → Nat → Except RErr (Nat × List Nat)
+  | 0, cs, acc => .ok (acc, cs)
+  | _ + 1, [], acc => .ok (acc, [])
+  | n + 1, c :: cs, acc =>
+    match toDigit r c with
+    | none => .error (.invalidDigit c)
+    | some d =>
+      let acc' := acc * r.base + d
+      if acc' ≥ U128 then .error .panic else windowLoop r n cs acc'
+
+/-- Second loop: sticky bit and number of extra digits. -/
+def tailLoop (r : Radix) : List Nat → Bool → Nat → Except RErr (Bool × Nat)
+  | [], st, k => .ok (st, k)
+  | c :: cs, st, k =>
+    match toDigit r c with
+    | none => .error (.invalidDigit c)
+    | some d => tailLoop r cs (st || d != 0) (k + 1)
+
+/-- Round a natural number to 53 significant bits, ties to even (the exact
+    value of the nearest double when the exponent range is ignored). -/
+def roundNE (n : Nat) : Nat :=
+  let len := n.log2 + 1
+  if len ≤ 53 then n
+  else
+    let sh := len - 53
+    let q := n / 2 ^ sh
+    let rem := n % 2 ^ sh
+    let half := 2 ^ (sh - 1)
+    let q' := if rem > half ∨ (rem = half ∧ q % 2 = 1) then q + 1 else q
+    q' * 2 ^ sh
+
+/-- Largest finite double `(2^53 - 1) * 2^971`. -/
+def maxFinite : Nat := (2 ^ 53 - 1) * 2 ^ 971
+
+/-- A non-negative `f64` that is an integer or `+inf`. -/
+inductive F64 where
+  | fin (v : Nat)
+  | inf
+deriving Repr, DecidableEq
+
+/-- `x * f64::from(RADIX)` for a power-of-two radix: exact unless it overflows. -/
+def F64.mulRadix (x : F64) (b : Nat) : F64 :=
+  match x with
+  | .inf => .inf
+  | .fin v => if v * b ≤ maxFinite then .fin (v * b) else .inf
+
+/-- `for _ in 0..num_extra_digits { number *= RADIX }` -/
+def mulLoop (b : Nat) : Nat → F64 → F64
+  | 0, x => x
+  | k + 1, x => mulLoop b k (x.mulRadix b)
+
+/-- `parse_num_radix::<RADIX>`: the exact value of the resulting double. -/
+def parseNumRadix (r : Radix) (s : List Nat) : Except RErr Nat :=
+  if s.isEmpty then .error .empty
+  else
+    match windowLoop r r.maxDigits (trimZeros s) 0 with
+    | .error e => .error e
+    | .ok (number, rest) =>
+      match tailLoop r rest false 0 with
+      | .error e => .error e
+      | .ok (sticky, extra) =>
+        let number := if sticky then number ||| 1 else number
+        -- `number as f64`: u128 -> f64 rounds to nearest, ties to even
+        match mulLoop r.base extra (.fin (roundNE number)) with
+        | .inf => .error .overflow
+        | .fin v => .ok v
+
+/-- First character that is not an ASCII digit. -/
+def firstNonDigit : List Nat → Option Nat
+  | [] => none
+  | c :: cs => if 48 ≤ c ∧ c ≤ 57 then firstNonDigit cs else some c
+
+/-- Value of a string of ASCII decimal digits. -/
+def decValue (cs : List Nat) : Nat := cs.foldl (fun a c => a * 10 + (c - 48)) 0
+
+/-- `do_std_parse_int`: (negative?, exact value of the double).  The decimal
+    conversion is `str::parse::<f64>`, which is correctly rounded (trusted). -/
+def parseInt (s : List Nat) : Except RErr (Bool × Nat) :=
+  let neg := s.head? == some 45
+  let sub := if neg then s.drop 1 else s
+  if sub.isEmpty then .error .empty
+  else match firstNonDigit sub with
+    | some c => .error (.invalidDigit c)
+    | none =>
+      let v := roundNE (decValue sub)
+      if v ≤ maxFinite then .ok (neg, v) else .error .overflow
+
+/-- IEEE-754 binary64 bit pattern of a non-negative integer that is exactly
+    representable (driver output only). -/
+def toBits (v : Nat) : Nat :=
+  if v = 0 then 0
+  else
+    let e := v.log2
+    let mant := if e ≥ 52 then v >>> (e - 52) else v <<< (52 - e)
+    (e + 1023) * 2 ^ 52 + (mant - 2 ^ 52)
+
+/-! ## UTF-8 -/
+
+/-- `char::encode_utf8` -/
+def encodeScalar (c : Nat) : List Nat :=
+  if c < 0x80 then [c]
+  else if c < 0x800 then [0xC0 + c / 64, 0x80 + c % 64]
+  else if c < 0x10000 then [0xE0 + c / 4096, 0x80 + c / 64 % 64, 0x80 + c % 64]
+  else [0xF0 + c / 262144, 0x80 + c / 4096 % 64, 0x80 + c / 64 % 64, 0x80 + c % 64]
+
+/-- `std.encodeUTF8`: the bytes of the string. -/
+def encodeUtf8 (s : List Nat) : List Nat := s.flatMap encodeScalar
+
+def isCont (b : Nat) : Bool := 0x80 ≤ b && b ≤ 0xBF
+
+/-- Second byte allowed after a three-byte lead (`Utf8Chunks::next`). -/
+def second3 (b c : Nat) : Bool :=
+  if b = 0xE0 then 0xA0 ≤ c && c ≤ 0xBF
+  else if b = 0xED then 0x80 ≤ c && c ≤ 0x9F
+  else 0x80 ≤ c && c ≤ 0xBF
+
+/-- Second byte allowed after a four-byte lead. -/
+def second4 (b c : Nat) : Bool :=
+  if b = 0xF0 then 0x90 ≤ c && c ≤ 0xBF
+  else if b = 0xF4 then 0x80 ≤ c && c ≤ 0x8F
+  else 0x80 ≤ c && c ≤ 0xBF
+
+def REPL : Nat := 0xFFFD
+
+/-- One step of `Utf8Chunks`: the scalar produced (U+FFFD for an invalid
+    chunk) and the number of bytes consumed (≥ 1). -/
+def lossyStep (b : Nat) (rest : List Nat) : Nat × Nat :=
+  if b < 0x80 then (b, 1)
+  else if 0xC2 ≤ b ∧ b ≤ 0xDF then
+    match rest with
+    | c1 :: _ => if isCont c1 then ((b - 0xC0) * 64 + (c1 - 0x80), 2) else (REPL, 1)
+    | [] => (REPL, 1)
+  else if 0xE0 ≤ b ∧ b ≤ 0xEF then
+    match rest with
+    | c1 :: rest1 =>
+      if second3 b c1 then
+        match rest1 with
+        | c2 :: _ =>
+          if isCont c2 then ((b - 0xE0) * 4096 + (c1 - 0x80) * 64 + (c2 - 0x80), 3) else (REPL, 2)
+        | [] => (REPL, 2)
+      else (REPL, 1)
+    | [] => (REPL, 1)
+  else if 0xF0 ≤ b ∧ b ≤ 0xF4 then
+    match rest with
+    | c1 :: rest1 =>
+      if second4 b c1 then
+        match rest1 with
+        | c2 :: rest2 =>
+          if isCont c2 then
+            match rest2 with
+            | c3 :: _ =>
+              if isCont c3 then
+                ((b - 0xF0) * 262144 + (c1 - 0x80) * 4096 + (c2 - 0x80) * 64 + (c3 - 0x80), 4)
+              else (REPL, 3)
+            | [] => (REPL, 3)
+          else (REPL, 2)
+        | [] => (REPL, 2)
+      else (REPL, 1)
+    | [] => (REPL, 1)
+  else (REPL, 1)
+
+/-- `String::from_utf8_lossy` as a list of scalar values; `fuel` bounds the
+    number of chunks (one per byte is enough). -/
+def decodeLossyFuel : Nat → List Nat → List Nat
+  | 0, _ => []
+  | _ + 1, [] => []
+  | fuel + 1, b :: rest =>
+    let (c, n) := lossyStep b rest
+    c :: decodeLossyFuel fuel ((b :: rest).drop n)
+
+def decodeLossy (bs : List Nat) : List Nat := decodeLossyFuel bs.length bs
+
+/-! ## Escapers -/
+
+/-- `std.escapeStringBash` -/
+def escBash (s : List Nat) : List Nat :=
+  [39] ++ s.flatMap (fun c => if c = 39 then [39, 34, 39, 34, 39] else [c]) ++ [39]
+
+/-- `std.escapeStringDollars`: `s.replace('$', "$$")` -/
+def escDollars (s : List Nat) : List Nat :=
+  s.flatMap (fun c => if c = 36 then [36, 36] else [c])
+
+/-- `std.escapeStringXML` -/
+def escXmlChar (c : Nat) : List Nat :=
+  if c = 60 then [38, 108, 116, 59]                    -- &lt;
+  else if c = 62 then [38, 103, 116, 59]               -- &gt;
+  else if c = 38 then [38, 97, 109, 112, 59]           -- &amp;
+  else if c = 34 then [38, 113, 117, 111, 116, 59]     -- &quot;
+  else if c = 39 then [38, 97, 112, 111, 115, 59]      -- &apos;
+  else [c]
+
+def escXml (s : List Nat) : List Nat := s.flatMap escXmlChar
+
+/-- lowercase hex digit -/
+def hexDig (n : Nat) : Nat := if n < 10 then 48 + n else 87 + n
+
+/-- `escape_string_json` (manifest.rs), one character. -/
+def escJsonChar (c : Nat) : List Nat :=
+  if c = 8 then [92, 98]
+  else if c = 9 then [92, 116]
+  else if c = 10 then [92, 110]
+  else if c = 12 then [92, 102]
+  else if c = 13 then [92, 114]
+  else if c = 34 then [92, 34]
+  else if c = 92 then [92, 92]
+  else if c ≤ 0x1F ∨ (0x7F ≤ c ∧ c ≤ 0x9F) then
+    [92, 117, hexDig (c / 4096 % 16), hexDig (c / 256 % 16), hexDig (c / 16 % 16), hexDig (c % 16)]
+  else [c]
+
+/-- `std.escapeStringJson` = `std.escapeStringPython` -/
+def escJson (s : List Nat) : List Nat := [34] ++ s.flatMap escJsonChar ++ [34]
+
+/-- `hash_to_hex_string`: `{byte:02x}` per byte. -/
+def hexString (bs : List Nat) : List Nat :=
+  bs.flatMap (fun b => [hexDig (b / 16), hexDig (b % 16)])
+
+/-! ## Driver -/
+
+def hex16 (n : Nat) : String :=
+  String.ofList ((List.range 16).reverse.map (fun i => Rsj.hexDigit (n / 16 ^ i % 16)))
+
+def showStr (s : List Nat) : String := "ok " ++ Rsj.hexEnc (encodeUtf8 s)
+
+def charHex (c : Nat) : String := Rsj.hexEnc (encodeScalar c)
+
+def showRErr : RErr → String
+  | .empty => "err empty"
+  | .invalidDigit c => "err digit " ++ charHex c
+  | .overflow => "err overflow"
+  | .panic => "panic"
+
+def showB64Err : B64Err → String
+  | .length => "err length"
+  | .badChar c => "err char " ++ charHex c
+  | .codepoint => "err codepoint"
+  | .panic => "panic"
+
+/-- The string carried by a hex argument (the harness only sends valid UTF-8). -/
+def strArg (h : String) : Option (List Nat) := (Rsj.hexDecode h).map decodeLossy
+
 /-- `codec <args...>` : one canonical answer line, or `none` for a malformed request. -/
-def handle (_args : List String) : Option String := none
+def handle (args : List String) : Option String :=
+  match args with
+  | ["b64enc", h] => do
+    let bs ← Rsj.hexDecode h
+    match encode bs with
+    | some r => pure (showStr r)
+    | none => pure "panic"
+  | ["b64encs", h] => do
+    let s ← strArg h
+    match encodeStr s with
+    | .ok r => pure (showStr r)
+    | .error e => pure (showB64Err e)
+  | ["b64dec", h] => do
+    let s ← strArg h
+    match decode s with
+    | .ok bs => pure ("ok " ++ Rsj.hexEnc bs)
+    | .error e => pure (showB64Err e)
+  | ["b64decs", h] => do
+    let s ← strArg h
+    match decode s with
+    | .ok bs => pure (showStr bs)
+    | .error e => pure (showB64Err e)
+  | ["radix", r, h] => do
+    let s ← strArg h
+    let rr ← (if r == "8" then some Radix.oct else if r == "16" then some Radix.hex else none)
+    match parseNumRadix rr s with
+    | .ok v => pure ("ok " ++ hex16 (toBits v))
+    | .error e => pure (showRErr e)
+  | ["parseint", h] => do
+    let s ← strArg h
+    match parseInt s with
+    | .ok (neg, v) => pure ("ok " ++ hex16 (toBits v + (if neg then 2 ^ 63 else 0)))
+    | .error e => pure (showRErr e)
+  | ["utf8enc", h] => do
+    let s ← strArg h
+    pure ("ok " ++ Rsj.hexEnc (encodeUtf8 s))
+  | ["utf8dec", h] => do
+    let bs ← Rsj.hexDecode h
+    pure (showStr (decodeLossy bs))
+  | ["esc", kind, h] => do
+    let s ← strArg h
+    match kind with
+    | "bash" => pure (showStr (escBash s))
+    | "dollars" => pure (showStr (escDollars s))
+    | "xml" => pure (showStr (escXml s))
+    | "json" => pure (showStr (escJson s))
+    | "python" => pure (showStr (escJson s))
+    | _ => none
+  | ["hexstr", h] => do
+    let bs ← Rsj.hexDecode h
+    pure (showStr (hexString bs))
+  | _ => none
 
 end Rsj.Codec
